@@ -709,26 +709,49 @@ func mutatesElementOfSliceParam(fn *ssa.Function, p *ssa.Parameter) string {
 // mutatesPublishParam: fn calls a mutator of PublishMessage / header on its parameter p (directly, or by handing it to a
 // library function that does); returns the name of the mutator found.
 func mutatesPublishParam(fn *ssa.Function, p *ssa.Parameter, depth int) string {
+	// the parameter itself, or the parameter behind an interface conversion (`var m idSetter = msg`)
+	isP := func(v ssa.Value) bool {
+		v = ir.SeeThrough(v)
+		for i := 0; i < 3; i++ {
+			switch x := v.(type) {
+			case *ssa.MakeInterface:
+				v = ir.SeeThrough(x.X)
+			case *ssa.ChangeInterface:
+				v = ir.SeeThrough(x.X)
+			case *ssa.TypeAssert:
+				v = ir.SeeThrough(x.X)
+			}
+		}
+		return v == ssa.Value(p)
+	}
 	for _, call := range ir.Calls(fn) {
-		f := call.Common().StaticCallee()
-		if f == nil || call.Common().IsInvoke() || len(call.Common().Args) == 0 {
+		cc := call.Common()
+		// a mutator called through an interface the message (or the interface parameter holding it) satisfies
+		if cc.IsInvoke() {
+			if publishMutators[cc.Method.Name()] && isP(cc.Value) {
+				return cc.Method.Name()
+			}
+			continue
+		}
+		f := cc.StaticCallee()
+		if f == nil || len(cc.Args) == 0 {
 			continue
 		}
 		if publishMutators[f.Name()] && f.Signature.Recv() != nil && (namedName(f.Signature.Recv().Type()) == "PublishMessage" || namedName(f.Signature.Recv().Type()) == "header") {
-			recv := ir.SeeThrough(call.Common().Args[0])
+			recv := ir.SeeThrough(cc.Args[0])
 			for i := 0; i < 3; i++ {
 				if fa, ok := recv.(*ssa.FieldAddr); ok {
 					recv = ir.SeeThrough(fa.X)
 				}
 			}
-			if recv == ssa.Value(p) {
+			if isP(recv) {
 				return f.Name()
 			}
 			continue
 		}
 		if depth > 0 && f.Blocks != nil {
-			for i, a := range call.Common().Args {
-				if i < len(f.Params) && ir.SeeThrough(a) == ssa.Value(p) {
+			for i, a := range cc.Args {
+				if i < len(f.Params) && isP(a) {
 					if m := mutatesPublishParam(f, f.Params[i], depth-1); m != "" {
 						return f.Name() + " -> " + m
 					}
